@@ -79,7 +79,7 @@ func initPair() {
 		"==",
 		func(vm *Thread, args []value.Value) (value.Value, value.Value) {
 			self := args[0].AsReference().(value.Pair)
-			other, ok := args[1].AsReference().(value.Pair)
+			other, ok := args[1].SafeAsReference().(value.Pair)
 			if !ok {
 				return value.False.ToValue(), value.Undefined
 			}
